@@ -62,6 +62,19 @@ func (r *Rec) Log(kind string, f ...string) int {
 	return n
 }
 
+// LogIf appends the event only if cond holds of the log as it is at that very moment (evaluated under the recorder's lock: nothing can
+// be logged between the evaluation and the event).
+func (r *Rec) LogIf(cond func(evs []Event) bool, kind string, f ...string) bool {
+	g := gid()
+	r.mu.Lock()
+	defer r.mu.Unlock()
+	if !cond(r.evs) {
+		return false
+	}
+	r.evs = append(r.evs, Event{kind, f, g})
+	return true
+}
+
 func (r *Rec) Snapshot() []Event {
 	r.mu.Lock()
 	defer r.mu.Unlock()
